@@ -44,8 +44,8 @@ def _case(draw, tier):
                       (2, ops.smeta_op(PIDS, [None, "fmt:x"], 2)), (1, ops.delete_op(PIDS)))
     verb = draw(st.sampled_from(["create", "storeobject", "storeobject", "storeobject", "retrieveobject",
                                  "deleteobject", "storemetadata", "retrievemetadata", "deletemetadata", "getchecksum"]))
-    c = {"cfg": cfg, "contents": [{"hex": "68656c6c6f20776f726c640a" * 3}, {"hex": ("c3a9" + "61" * 30) * 50}],
-         "docs": [{"hex": "3c6d2f3e"}, {"hex": ("3c78" + "c3a9" + "2f3e") * 300}],
+    c = {"cfg": cfg, "contents": [{"hex": "68656c6c6f20776f726c640d0a" * 3}, {"hex": ("c3a9" + "61" * 30) * 50}],
+         "docs": [{"hex": "3c6d2f3e0d0a3c2f6d3e"}, {"hex": ("3c78" + "c3a9" + "2f3e") * 300}],
          "ops": draw(st.lists(op, min_size=0, max_size=5)), "verb": verb, "pid": draw(st.sampled_from(PIDS + ["unknown"])),
          "c": draw(st.integers(0, 1))}
     if verb == "storeobject":
@@ -188,6 +188,14 @@ def run_case(case, ctx):
             if s not in stdout:
                 ctx.violation("client-output", f"{desc}: client stdout lacks {s[:80]!r}; stdout={stdout[:300]!r}",
                               {"verb": verb})
+        if verb in ("retrieveobject", "retrievemetadata") and stdout_checks:
+            # the displayed content is EXACTLY the first 1000 bytes (nothing more, nothing translated)
+            s0 = stdout_checks[0]
+            rest = stdout[len(s0):] if stdout.startswith(s0) else None
+            if rest is None or not rest.lstrip("\n").startswith("..."):
+                ctx.violation("client-output", f"{desc}: displayed content differs from the first 1000 bytes the API "
+                              f"returns: expected {s0[:60]!r}... ({len(s0)} chars), stdout {stdout[:80]!r}... "
+                              f"({len(stdout)} chars)", {"verb": verb})
     aC, aA = common.alpha(rootC, cfg), common.alpha(rootA, cfg)
     if common.alpha_key(aC) != common.alpha_key(aA):
         ctx.violation("client-api-state", f"{desc}: outcomes API={_oc(outA)} client={_oc(outC)}; store states differ: "
